@@ -20,11 +20,18 @@ class TranslateError(Exception):
     pass
 
 
+_PARSED: Dict[Any, ast.Module] = {}
+
+
 def parse_file(rel: str) -> ast.Module:
     path = os.path.join(REPO, rel)
     try:
-        from harness.astnorm import normalise     # named constants / folded literals read as the literals they are
-        return normalise(ast.parse(open(path, encoding='utf-8').read(), filename=path))
+        st = os.stat(path)
+        key = (path, st.st_mtime_ns, st.st_size)
+        if key not in _PARSED:      # (the extractors ask for the same file many times; the tree is read-only for them)
+            from harness.astnorm import normalise     # named constants / folded literals read as the literals they are
+            _PARSED[key] = normalise(ast.parse(open(path, encoding='utf-8').read(), filename=path))
+        return _PARSED[key]
     except (OSError, SyntaxError) as e:
         raise TranslateError(f'cannot parse {rel}: {e}')
 
